@@ -67,3 +67,27 @@ pub fn n(s: &str) -> N {
 pub fn rec(owner: &str, d: D) -> R {
     Record::new(n(owner), Class::IN, Ttl::from_secs(3600), d)
 }
+
+/// like `roundtrip`, but prints only failures (as FAILING INPUT)
+#[allow(dead_code)]
+pub fn roundtrip_quiet(label: &str, rec: &R) -> bool {
+    let texts = vec![
+        ("Simple", format!("{}\n", rec.display_zonefile(DisplayKind::Simple))),
+        ("Tabbed", format!("{}\n", rec.display_zonefile(DisplayKind::Tabbed))),
+        ("Multiline", format!("{}\n", rec.display_zonefile(DisplayKind::Multiline))),
+    ];
+    let mut all = true;
+    for (kind, text) in texts {
+        let res = read(text.as_bytes());
+        let ok = match &res {
+            Ok(v) => v.len() == 1 && &v[0] == rec && v[0].ttl() == rec.ttl() && v[0].class() == rec.class() && v[0].owner() == rec.owner(),
+            Err(_) => false,
+        };
+        if !ok {
+            let shown: String = text.chars().take(300).collect();
+            println!("FAILING INPUT: record [{}] written in the {} form as {:?}\n  read back: {:?}", label, kind, shown, res.map(|v| v.iter().map(|r| format!("{}", r).chars().take(200).collect::<String>()).collect::<Vec<_>>()));
+            all = false;
+        }
+    }
+    all
+}
